@@ -60,9 +60,15 @@ pub fn step(frames_index: usize, func: usize, ip: usize, op: u8, sp: usize, tos:
     if mode == 0 {
         return;
     }
-    // sparse mode keeps Constant(0), Pop(1), Jump(15) and call/return opcodes (26..=28)
-    if mode == 2 && !matches!(op, 0 | 1 | 15 | 26 | 27 | 28) {
-        return;
+    // sparse mode keeps Constant, Pop, Jump and the call / return opcodes
+    if mode == 2 {
+        use crate::code::opcode::Opcode;
+        if !matches!(
+            Opcode::from(op),
+            Opcode::Constant | Opcode::Pop | Opcode::Jump | Opcode::Call | Opcode::ReturnValue | Opcode::Return
+        ) {
+            return;
+        }
     }
     let (tk, tv) = digest(tos);
     TRACE.with(|t| {
